@@ -83,6 +83,10 @@ func (s *Service) handler(ctx context.Context, request []byte, next core.NextIOH
 	if len(request) > 0 && request[0] == 'C' {
 		return next(ctx, request)
 	}
+	if len(request) > 0 && request[0] == 'A' {
+		// the plainest echo there is: the response is the request slice itself
+		return request, nil
+	}
 	return append([]byte(nil), request...), nil
 }
 
